@@ -7,7 +7,12 @@ import re
 DIALECTS = {
     "z80": {"cpu": "z80", "ok": "nop", "warn": "ds 0", "jump": "jp"},
     "8051": {"cpu": "8051", "ok": "nop", "warn": "ds 0", "jump": "ljmp"},
+    # targets that choose the operand size themselves (zero page / direct vs. extended): a body of such instructions
+    # shrinks once its operand, defined further down, is known - the TransientJumpErr family (no `warn` class here)
+    "6502": {"cpu": "6502", "ok": "nop", "jump": "jmp", "org": "$8000", "br": "bne", "body": "lda", "n": 50, "pn": 100},
+    "6811": {"cpu": "6811", "ok": "nop", "jump": "jmp", "org": "$8000", "br": "beq", "body": "ldd", "n": 60, "pn": 60},
 }
+JUMP_DIALECTS = ("6502", "6811")
 
 FLAG_ON = {"dotted": "dottedstructs on", "relaxed": "relaxed on"}
 
@@ -16,6 +21,9 @@ def render_file(lines, dialect, fno):
     """lines: list of line-class dicts {k, n, f, t}; returns source text"""
     dl = DIALECTS[dialect]
     out = ["\tcpu\t" + dl["cpu"]]
+    trailer = []
+    if "org" in dl:
+        out.append("\torg\t" + dl["org"])
     for i, ln in enumerate(lines, 1):
         k = ln["k"]
         if k == "ok":
@@ -37,6 +45,17 @@ def render_file(lines, dialect, fno):
             out.append("fw%d_%d:" % (fno, i))
         elif k == "undef":
             out.append("\t%s\tnosym%d_%d" % (dl["jump"], fno, i))
+        elif k == "tjmp":
+            # short branch over a body whose operand is defined at the end of the file: 3-byte instructions in pass 1,
+            # 2-byte ones from pass 2 on; the branch is out of range only with the label value of pass 1
+            out.append("\t%s\tdn%d_%d" % (dl["br"], fno, i))
+            out += ["\t%s\tzv%d_%d" % (dl["body"], fno, i)] * dl["n"]
+            out.append("dn%d_%d:\t%s" % (fno, i, dl["ok"]))
+            trailer.append("zv%d_%d\tequ\t$10" % (fno, i))
+        elif k == "pjmp":
+            out.append("\t%s\tfar%d_%d" % (dl["br"], fno, i))
+            out += ["\t%s\t$1234" % dl["body"]] * dl["pn"]
+            out.append("far%d_%d:\t%s" % (fno, i, dl["ok"]))
         elif k in ("burstE", "burstW", "burstU"):
             body = {"burstE": "bogus", "burstW": dl["warn"], "burstU": "warning \"w%d\"" % i}[k]
             out += ["\trept\t%d" % ln["n"], "\t" + body, "\tendm"]
@@ -76,6 +95,7 @@ def render_file(lines, dialect, fno):
                 raise ValueError(ln)
         else:
             raise ValueError(ln)
+    out += trailer
     return "\n".join(out) + "\n"
 
 
@@ -89,6 +109,8 @@ def render_argv(o, names):
         a += ["-maxerrors", str(o["maxerr"])]
     if o.get("suppw"):
         a.append("-w")
+    if o.get("throw"):
+        a.append("-Y")
     if o.get("q"):
         a.append("-q")
     a += ["-x"] * int(o.get("x", 0))
